@@ -83,7 +83,18 @@ func raceRounds(c Case, s *hx.Sink) {
 			recs = append(recs, kvs.Record{Key: fmt.Sprintf("f%d", i), Value: []byte("x")})
 		}
 		far := time.Now().Add(time.Hour)
-		recs = append(recs, kvs.Record{Key: "k", Value: []byte("new"), ExpiresAt: &far})
+		noexp := round%2 == 1 // the rewrite has no expiration at all
+		if noexp {
+			recs = append(recs, kvs.Record{Key: "k", Value: []byte("new")})
+		} else {
+			recs = append(recs, kvs.Record{Key: "k", Value: []byte("new"), ExpiresAt: &far})
+		}
+		sameExp := func(t *time.Time) bool {
+			if noexp {
+				return t == nil
+			}
+			return t != nil && t.Equal(far)
+		}
 		lead := time.Duration(c.Lead+g.Intn(c.Lead+1)) * time.Microsecond
 		for time.Until(exp) > lead { // spin: the batch has to start shortly before the expiration
 		}
@@ -114,11 +125,11 @@ func raceRounds(c Case, s *hx.Sink) {
 			s.DirectViolation(c.ID, "a record whose expiration lies one hour in the future is gone: Get after PutMany returned "+kvx.Class(err),
 				map[string]any{"round": round, "fill": c.Fill, "expiry_inside_the_batch": spanned, "waiters": nw})
 			return
-		case string(got.Value) != "new" || got.Version == r0.Version || got.ExpiresAt == nil || !got.ExpiresAt.Equal(far):
+		case string(got.Value) != "new" || got.Version == r0.Version || !sameExp(got.ExpiresAt):
 			s.DirectViolation(c.ID, "Get after PutMany does not return the record written last", map[string]any{"round": round})
 			return
 		}
-		if round%16 == 3 {
+		if round%16 == 3 || round%16 == 10 {
 			// much later (any periodic housekeeping of the store has had its chance) another write, of another key: the
 			// record rewritten with the later expiration is still there
 			time.Sleep(130 * time.Millisecond)
@@ -131,8 +142,8 @@ func raceRounds(c Case, s *hx.Sink) {
 				return
 			}
 			got, err := st.Get(ctx, "k")
-			if err != nil || string(got.Value) != "new" || got.ExpiresAt == nil || !got.ExpiresAt.Equal(far) {
-				s.DirectViolation(c.ID, "a record whose expiration lies one hour in the future was dropped by a later write of another key",
+			if err != nil || string(got.Value) != "new" || !sameExp(got.ExpiresAt) {
+				s.DirectViolation(c.ID, "a record whose expiration lies one hour in the future (or that has none) was dropped by a later write of another key",
 					map[string]any{"round": round, "get": kvx.Class(err)})
 				return
 			}
@@ -277,12 +288,62 @@ func casExpiry(c Case, s *hx.Sink) {
 	s.Count("race:redis-record-expires-inside-a-cas")
 }
 
+// rewriteRounds (in-memory): a record with a lease of 3 ms is rewritten at once - without expiration, or with one an
+// hour ahead - through Put, PutMany or CasByVersion; the old expiration passes; then other keys are written (whatever
+// housekeeping writes do has its chance) and the rewritten record must still be there.
+func rewriteRounds(c Case, s *hx.Sink) {
+	ctx := context.Background()
+	for round := 0; round < 24; round++ {
+		st := inmem.New()
+		exp := time.Now().Add(3 * time.Millisecond)
+		r0, err := st.Put(ctx, kvs.Record{Key: "k", Value: []byte("old"), ExpiresAt: &exp})
+		if err != nil {
+			s.DirectViolation(c.ID, "rewrite rounds: Put failed", err.Error())
+			return
+		}
+		nr := kvs.Record{Key: "k", Value: []byte("new")}
+		far := time.Now().Add(time.Hour)
+		if round%2 == 1 {
+			nr.ExpiresAt = &far
+		}
+		how := []string{"Put", "PutMany", "CasByVersion"}[round%3]
+		switch how {
+		case "Put":
+			_, err = st.Put(ctx, nr)
+		case "PutMany":
+			err = st.PutMany(ctx, []kvs.Record{{Key: "x", Value: []byte("x")}, nr})
+		default:
+			nr.Version = r0.Version
+			_, err = st.CasByVersion(ctx, nr)
+		}
+		if err != nil {
+			if time.Now().After(exp) {
+				continue // the machine took 3 ms for two calls: the record had expired, nothing to judge
+			}
+			s.DirectViolation(c.ID, "rewrite rounds: rewriting a live record failed", map[string]any{"how": how, "result": kvx.Class(err)})
+			return
+		}
+		time.Sleep(6 * time.Millisecond)
+		st.Put(ctx, kvs.Record{Key: "other", Value: []byte("o")})
+		st.Create(ctx, kvs.Record{Key: "other2", Value: []byte("o")})
+		st.PutMany(ctx, []kvs.Record{{Key: "other3", Value: []byte("o")}})
+		got, err := st.Get(ctx, "k")
+		if err != nil || string(got.Value) != "new" {
+			s.DirectViolation(c.ID, "a record that was rewritten (no expiration / one hour ahead) before its old expiration passed is gone after that old expiration and a write of another key",
+				map[string]any{"round": round, "rewritten_by": how, "new_expiration": map[bool]string{false: "none", true: "1h"}[round%2 == 1], "get": kvx.Class(err)})
+			return
+		}
+	}
+	s.Count("race:rewritten-before-the-old-expiration")
+}
+
 func runCase(c Case, s *hx.Sink) string {
 	if c.Race > 0 && c.Be == "redis" {
 		casExpiry(c, s)
 		return fmt.Sprintf("mkCase %s %s %s []", hx.N(c.ID), inmemB.CoqBackend(), hx.Z(tolNs))
 	}
 	if c.Race > 0 {
+		rewriteRounds(c, s)
 		readerRounds(c, s)
 		raceRounds(c, s)
 		return fmt.Sprintf("mkCase %s %s %s []", hx.N(c.ID), inmemB.CoqBackend(), hx.Z(tolNs))
